@@ -23,6 +23,8 @@ let run_multi = function
         s := M.mstep !s (M.MOpen (zarg p, str name));
         let k = (int_of_string (atom p), atom name) in
         if not (List.mem k !held) then held := k :: !held
+      | L [A "schema"; name; p; _] ->            (* schema rows are outside the model: the store is opened (flag recomputed), nothing else *)
+        s := M.mstep !s (M.MOpen (zarg p, str name))
       | L [A "op"; name; p; h; L [now; op]] ->
         if atom h <> "1" then s := M.mstep !s (M.MOpen (zarg p, str name));
         let o = op_of op in
